@@ -964,6 +964,9 @@ func (m *Machine) builtin(b *ssa.Builtin, args []Val) Val {
 		var add []Val
 		switch t := args[1].(type) {
 		case Slice:
+			if t.Blob != nil && s.Blob == nil && len(s.V) == 0 {
+				return t // append(empty, blob...) is the blob
+			}
 			if t.Blob != nil || s.Blob != nil {
 				panic(Unsupported{"append of opaque blob"})
 			}
